@@ -64,6 +64,27 @@ def _cfg(spec, configs=None, shapes=None, maxchunks=1000, on=(), invariants=(), 
     return "\n".join(L) + "\n"
 
 
+def _par(jobs, width):
+    """Run thunks concurrently (each is one TLC process); first error wins."""
+    sem = threading.Semaphore(width)
+    out, errs = [None] * len(jobs), []
+
+    def work(i):
+        with sem:
+            try:
+                out[i] = jobs[i]()
+            except Exception as e:       # noqa: BLE001 - re-raised below
+                errs.append(e)
+    ths = [threading.Thread(target=work, args=(i,)) for i in range(len(jobs))]
+    for t in ths:
+        t.start()
+    for t in ths:
+        t.join()
+    if errs:
+        raise errs[0]
+    return out
+
+
 def model_stage(ctx):
     """Step 1 of DESIGN 4.4: the corrected design satisfies C17; each open deviation and each model
     mutation breaks it."""
@@ -73,29 +94,24 @@ def model_stage(ctx):
         live = [("CfgAll1", "Shapes3", 3), ("CfgFifo2", "Shapes2", 1), ("CfgSock2", "Shapes2", 1),
                 ("CfgDgram2", "Shapes2", 1)]
     else:
-        safety = [("CfgFifo2", "Shapes3", 2), ("CfgSock2", "Shapes2", 1), ("CfgSock1", "Shapes3", 3),
-                  ("CfgDgram2", "ShapesDgram", 1), ("CfgDgram1", "ShapesDgram", 3)]
+        safety = [("CfgFifo2", "Shapes2", 2), ("CfgSock2", "Shapes2", 1), ("CfgDgram2", "ShapesDgram", 1),
+                  ("CfgSock1", "Shapes3", 3)]
         live = [("CfgAll1", "Shapes3", 2)]
-    zero = None
-    for i, (c, s, m) in enumerate(safety):
-        r = vlib.tlc(ctx, "MCConnStream", _cfg("Spec", c, s, m, invariants=SAFETY),
-                     label="safety-%s-%s-%d" % (c, s, m), timeout=1500, coverage=(i == 0 and not ctx.thorough))
-        if i == 0 and not ctx.thorough:
-            zero = r.zero_cov
+    w = max(2, vlib.NCPU // 4)
+    jobs = []
+    for c, s, m in safety:
+        jobs.append(lambda c=c, s=s, m=m: vlib.tlc(
+            ctx, "MCConnStream", _cfg("Spec", c, s, m, invariants=SAFETY), workers=w,
+            label="safety-%s-%s-%d" % (c, s, m), timeout=1800, coverage=not ctx.thorough))
     for c, s, m in live:
-        vlib.tlc(ctx, "MCConnStream", _cfg("Spec", c, s, m, invariants=SAFETY, properties=LIVENESS),
-                 label="live-%s-%s-%d" % (c, s, m), timeout=1500)
-    # coverage: every action of the three stream shapes is taken somewhere (one small run per shape)
-    never = None
-    for c, s in (("CfgFifo2", "Shapes2"), ("CfgSock2", "Shapes2"), ("CfgDgram2", "ShapesDgram")):
-        r = vlib.tlc(ctx, "MCConnStream", _cfg("Spec", c, s, 1, invariants=SAFETY), label="coverage-" + c,
-                     timeout=900, coverage=True)
-        z = set(r.zero_cov)
-        never = z if never is None else (never & z)
-    never = sorted((never or set()) - {"SSendNone"})     # SSendNone exists only for MUT_SharedReader
-    ctx.cov["actions_never_taken"] = never
-    if never:
-        raise vlib.InfraError("ConnStream actions never taken in any coverage run (vacuous model): %s" % never)
+        jobs.append(lambda c=c, s=s, m=m: vlib.tlc(
+            ctx, "MCConnStream", _cfg("Spec", c, s, m, invariants=SAFETY, properties=LIVENESS), workers=w,
+            label="live-%s-%s-%d" % (c, s, m), timeout=1800))
+    if ctx.thorough:
+        # coverage on one small instance per stream shape
+        for c, s in (("CfgFifo2", "Shapes2"), ("CfgSock2", "Shapes2"), ("CfgDgram2", "ShapesDgram")):
+            jobs.append(lambda c=c, s=s: vlib.tlc(ctx, "MCConnStream", _cfg("Spec", c, s, 1, invariants=SAFETY), workers=w,
+                                                  label="coverage-" + c, timeout=900, coverage=True))
     # deviations and mutations must break the property on the model
     expect = {
         "DEV_CloserAwaitsFirstConn": ("CfgSock1", "Shapes2", 1, [], ["EndsAfterCancel"]),
@@ -106,9 +122,22 @@ def model_stage(ctx):
         "MUT_FinishSkipped": ("CfgSock1", "Shapes2", 1, ["AllDeliveredAtClose"], []),
         "MUT_NoReadDeadline": ("CfgSock1", "Shapes2", 1, [], ["EndsAfterCancel"]),
     }
-    for sw, (c, s, m, inv, prop) in expect.items():
-        r = vlib.expect_dev_counterexample(ctx, "MCConnStream", _cfg("Spec", c, s, m, on=[sw], invariants=inv,
-                                                                     properties=prop), sw, timeout=900)
+    names = list(expect)
+    for sw in names:
+        c, s, m, inv, prop = expect[sw]
+        jobs.append(lambda sw=sw, c=c, s=s, m=m, inv=inv, prop=prop: vlib.expect_dev_counterexample(
+            ctx, "MCConnStream", _cfg("Spec", c, s, m, on=[sw], invariants=inv, properties=prop), sw, workers=2, timeout=900))
+    res = _par(jobs, width=max(2, vlib.NCPU // w))
+    never = None
+    cov_runs = [r for r in res[:len(safety)]] if not ctx.thorough else res[len(safety) + len(live):len(safety) + len(live) + 3]
+    for r in cov_runs:
+        z = set(r.zero_cov)
+        never = z if never is None else (never & z)
+    never = sorted((never or set()) - {"SSendNone"})     # SSendNone exists only for MUT_SharedReader
+    ctx.cov["actions_never_taken"] = never
+    if never:
+        raise vlib.InfraError("ConnStream actions never taken in any coverage run (vacuous model): %s" % never)
+    for sw, r in zip(names, res[-len(names):]):
         ctx.cov.setdefault("switch_counterexamples", {})[sw] = r.violated
 
 
@@ -260,33 +289,69 @@ def to_records(evs, tid, panic=False):
     if panic:
         if out and out[-1]["ev"] == "end":
             out.pop()
+        if not any(r["ev"] == "chanclosed" for r in out):
+            out.append({"ev": "chanclosed"})      # the panic message itself says the channel was closed
         out += [{"ev": "panic"}, {"ev": "end"}]
     return out
 
 
-def validate(ctx, traces, on=(), label="traces"):
+def renumber(recs):
+    """The k-th "line" record gets k; the reset record gets all observed lines (the prophecy the trace
+    specification uses to place the silent sends)."""
+    recs = [dict(r) for r in recs]
+    lines = []
+    for r in recs:
+        if r["ev"] == "line":
+            lines.append(r["b"])
+            r["k"] = len(lines)
+    recs[0]["lines"] = lines
+    return recs
+
+
+def validate(ctx, traces, on=(), label="traces", invariants=("TSafety",)):
     """traces: {key: [records]} -> (set of accepted keys, {key: index of the first event that could not be
     explained, relative to the trace})."""
-    keys = list(traces)
-    if not keys:
+    allkeys = list(traces)
+    if not allkeys:
         return set(), {}
-    lines, start = [], {}
-    for i, k in enumerate(keys):
-        recs = [dict(r) for r in traces[k]]
-        recs[0]["id"] = i + 1
-        start[i + 1] = len(lines) + 1
-        lines += [json.dumps(r, separators=(",", ":")) for r in recs]
-    r = vlib.tlc(ctx, "TraceConnStream",
-                 _cfg("TSpec", tracefile="trace.ndjson", on=on, invariants=["TSafety"], postcondition="Post"),
-                 workers=1, timeout=1200, extra_files={"trace.ndjson": "\n".join(lines) + "\n"}, label=label)
+    nshard = max(1, min(vlib.NCPU // 2 or 1, 6, len(allkeys) // 40 or 1))
+    results, errs = [], []
+
+    def work(si, keys):
+        try:
+            lines, start = [], {}
+            for i, k in enumerate(keys):
+                recs = renumber(traces[k])
+                recs[0]["id"] = i + 1
+                start[i + 1] = len(lines) + 1
+                lines += [json.dumps(r, separators=(",", ":")) for r in recs]
+            r = vlib.tlc(ctx, "TraceConnStream",
+                         _cfg("TSpec", tracefile="trace.ndjson", on=on, invariants=list(invariants) if not on else [],
+                              postcondition="Post"),
+                         workers=1, timeout=1200, extra_files={"trace.ndjson": "\n".join(lines) + "\n"},
+                         label="%s-%d" % (label, si))
+            acc, hw = set(), {}
+            for c in r.cases:
+                if "accept" in c:
+                    acc.add(keys[c["accept"] - 1])
+                elif "hw" in c:
+                    hw[keys[c["tr"] - 1]] = c["hw"] - start[c["tr"]]
+            if len(hw) != len(keys):
+                raise vlib.InfraError("trace validation did not report every trace (%d of %d)" % (len(hw), len(keys)))
+            results.append((acc, hw))
+        except Exception as e:           # noqa: BLE001 - re-raised below
+            errs.append(e)
+    ths = [threading.Thread(target=work, args=(si, allkeys[si::nshard])) for si in range(nshard)]
+    for t in ths:
+        t.start()
+    for t in ths:
+        t.join()
+    if errs:
+        raise errs[0]
     acc, hw = set(), {}
-    for c in r.cases:
-        if "accept" in c:
-            acc.add(keys[c["accept"] - 1])
-        elif "hw" in c:
-            hw[keys[c["tr"] - 1]] = c["hw"] - start[c["tr"]]
-    if len(hw) != len(keys):
-        raise vlib.InfraError("trace validation did not report every trace (%d of %d)" % (len(hw), len(keys)))
+    for a, h in results:
+        acc |= a
+        hw.update(h)
     return acc, hw
 
 
